@@ -143,11 +143,16 @@ def load(config="default"):
     with open(path) as f:
         text = norm_paths(f.read())
     d = json.loads(text)
+    aren = adt_renames(d)
+    if aren:
+        text = apply_adt_renames(text, aren)
+        d = json.loads(text)
     ren = fn_renames(d)
     if ren:
         d = json.loads(apply_fn_renames(text, ren))
     F = Facts(d, config, path, fresh)
     F.fn_renames = ren
+    F.adt_renames = aren
     _cache[config] = F
     return F
 
@@ -222,6 +227,39 @@ def fn_renames(d):
             # keep the actual generic-argument spelling of the container, replace the last segment only
             out[cands[0]] = cands[0].rsplit("::", 1)[0] + "::" + old_path.rsplit("::", 1)[1]
     return out
+
+
+def adt_renames(d):
+    """{actual struct path: reviewed struct path} for crate-private structs that were only renamed: the reviewed path
+    (spec/state_fields.json) is gone and exactly one unknown struct of the same module has the same field list
+    (names where unchanged, types in order)."""
+    spec_path = os.path.join(VERIF, "spec", "state_fields.json")
+    if not os.path.exists(spec_path):
+        return {}
+    with open(spec_path) as f:
+        spec = json.load(f)
+    have = {a["path"]: a for a in d["items"]["adts"] if a.get("kind") == "struct"}
+    out = {}
+    for old, want in spec.items():
+        if old in have:
+            continue
+        mod = old.rsplit("::", 1)[0] + "::"
+        cands = []
+        for p, a in have.items():
+            if not p.startswith(mod) or "::" in p[len(mod):] or p in spec:
+                continue
+            fl = a["variants"][0]["fields"]
+            if len(fl) == len(want) and all(_norm_ty(f_["ty"]).replace(p, old) == t for f_, (_, t) in zip(fl, want)):
+                cands.append(p)
+        if len(cands) == 1:
+            out[cands[0]] = old
+    return out
+
+
+def apply_adt_renames(text, ren):
+    for new, old in ren.items():
+        text = re.sub(r"(?<![\w:])" + re.escape(new) + r"(?![\w])", old, text)
+    return text
 
 
 def apply_fn_renames(text, ren):
